@@ -5,7 +5,9 @@ _TUS = ['src/cppparser/cppManifest.cxx', 'src/cppparser/cppPreprocessor.cxx', 's
         'src/dtoolutil/filename.cxx', 'src/dtoolutil/dSearchPath.cxx']
 _SKIP = ['cppPreprocessor.cxx']
 # out-of-range operator[] / back() / front() become "crash:" failures
-_GA = ['-D_GLIBCXX_ASSERTIONS', '-fno-inline']
+_GA = ['-D_GLIBCXX_ASSERTIONS']
+# TUs are lowered without inlining so that the cut of the std::string heap path removes every copy of it
+_TUF = _GA + ['-fno-inline']
 # std::string never leaves its 15-byte SSO buffer within the bounds below: the heap path is cut, its auto-stub asserts
 # ('model: unmodelled external function ... reached') if a string would ever grow beyond 15 bytes
 _CUT_HEAP_STRINGS = ['_ZNSt7__cxx1112basic_stringIcSt11char_traitsIcESaIcEE9_M_createERmm',
@@ -21,7 +23,7 @@ HARNESSES = [
   'property': 'C15',
   'src': 'c15_manifest.cxx',
   'entry': 'harness_c15_define_ctor',
-  'tus': _TUS, 'skip_ctors': _SKIP, 'cut': _CUT_HEAP_STRINGS + _CUT_VEC_REALLOC + [_SE], 'models': ['noinline.c'], 'tuflags': _GA, 'hflags': _GA,
+  'tus': _TUS, 'skip_ctors': _SKIP, 'cut': _CUT_HEAP_STRINGS + _CUT_VEC_REALLOC + [_SE], 'models': ['noinline.c'], 'tuflags': _TUF, 'hflags': _GA,
   'nonterm_is_violation': True,
   'desc': 'CPPManifest(parser, "#define" text, loc): name scan, parse_parameters, save_expansion on every short definition',
   'domain': 'every definition text of length 1..LMAX over {a ( ) , space # .} without leading/trailing blank (as handle_define_directive passes it)',
@@ -32,7 +34,7 @@ HARNESSES = [
   'property': 'C15',
   'src': 'c15_manifest.cxx',
   'entry': 'harness_c15_define_ctor',
-  'tus': _TUS, 'skip_ctors': _SKIP, 'cut': _CUT_HEAP_STRINGS + _CUT_VEC_REALLOC + [_SE], 'models': ['noinline.c'], 'tuflags': _GA, 'hflags': _GA + ['-DEXCLUDE_UNTERMINATED_PARAMS'],
+  'tus': _TUS, 'skip_ctors': _SKIP, 'cut': _CUT_HEAP_STRINGS + _CUT_VEC_REALLOC + [_SE], 'models': ['noinline.c'], 'tuflags': _TUF, 'hflags': _GA + ['-DEXCLUDE_UNTERMINATED_PARAMS'],
   'nonterm_is_violation': True,
   'desc': 'as c15_define_ctor with the known crashing class excluded (macro name directly followed by "(" without any ")": "#define F(a")',
   'domain': 'as c15_define_ctor, minus texts whose parameter list is never closed',
@@ -43,7 +45,7 @@ HARNESSES = [
   'property': 'C15',
   'src': 'c15_manifest.cxx',
   'entry': 'harness_c15_dash_d_ctor',
-  'tus': _TUS, 'skip_ctors': _SKIP, 'cut': _CUT_HEAP_STRINGS + _CUT_VEC_REALLOC + [_SE], 'models': ['noinline.c'], 'tuflags': _GA, 'hflags': _GA,
+  'tus': _TUS, 'skip_ctors': _SKIP, 'cut': _CUT_HEAP_STRINGS + _CUT_VEC_REALLOC + [_SE], 'models': ['noinline.c'], 'tuflags': _TUF, 'hflags': _GA,
   'nonterm_is_violation': True,
   'desc': 'CPPManifest(parser, macro, definition) as built by predefine_macro() for -D name=value',
   'domain': 'every split of a text of length 0..LMAX over {a ( ) , space # .} into name and value (either may be empty)',
